@@ -255,6 +255,9 @@ func (p *Parser) parseTaxa() (int64, map[string]bool, error) {
 		switch tok {
 		case ENDOFLINE:
 			continue
+		case ENDOFCOMMAND:
+			// empty command: nothing to skip, the next token starts a new command
+			continue
 		case ILLEGAL:
 			err = fmt.Errorf("found illegal token %q", lit)
 			stoptaxa = true
@@ -353,6 +356,8 @@ func (p *Parser) parseData() (names []string, sequences map[string]string, nchar
 		tok, lit := p.scanIgnoreWhitespace()
 		switch tok {
 		case ENDOFLINE:
+		case ENDOFCOMMAND:
+			// empty command: nothing to skip, the next token starts a new command
 		case ILLEGAL:
 			err = fmt.Errorf("found illegal token %q", lit)
 			stopdata = true
